@@ -254,6 +254,9 @@ CtxBegin ==
 
 Stepping == Ok /\ inCtx = "poll" /\ ph = "run" /\ retd = <<>> /\ blockedOn = <<>>
 
+DecideMarker(expired) == [NoPk EXCEPT !.t = IF expired THEN "ABANDON" ELSE "RESUME"]
+Deciding == resumeQ # <<>> /\ Head(resumeQ).t \in {"ABANDON", "RESUME"}
+
 CanWrite == wrm \in {"accept", "max"}
 WriteFails == wrm \in {"err", "zero"}
 
@@ -269,7 +272,7 @@ ApplyOut(out, freed, newids, newsids) ==
                                THEN @ + 1 ELSE @]
 
 TakeResume ==                                                                  \* C17
-  /\ Stepping /\ resumeQ # <<>> /\ CanWrite
+  /\ Stepping /\ resumeQ # <<>> /\ ~Deciding /\ CanWrite
   /\ Ev("wr")
   /\ LET e == Head(resumeQ) p == Ln.pk IN
         p.t = e.t /\ p.id = e.id /\ p.qos = e.qos /\ p.dup = e.dup /\ p.retain = e.retain
@@ -443,22 +446,29 @@ MarkDisc ==
 CancelAwaiting(o, aw) ==
   [k \in DOMAIN o |-> IF \E i \in 1..Len(aw) : aw[i].op = k THEN [o[k] EXCEPT !.slot = <<Cancelled>>] ELSE o[k]]
 
+\* connecting again: the new CONNACK's limits apply at once; whether the session is resumed or abandoned is
+\* decided (and takes effect) when run() starts serving the new connection, i.e. in its first poll
+
 Reconnect ==
   /\ Ok /\ Ev("reconnect") /\ ph = "ret" /\ Adv
-  /\ LET expired == secsAgo # <<>> /\ SessionExpired(Ln.seik, Ln.sei, secsAgo[1])
-         resumed == secsAgo # <<>> /\ ~expired
-     IN /\ S' = IF expired
-                THEN [InitS(Ln.R, Ln.M) EXCEPT !.rx2 = S.rx2, !.loose = TRUE]
-                ELSE [S EXCEPT !.R = Ln.R, !.M = Ln.M, !.quota = Ln.R, !.loose = TRUE]
-        /\ ops' = IF expired THEN CancelAwaiting(ops, S.await) ELSE ops
-        /\ sts' = IF expired THEN [k \in DOMAIN sts |-> [sts[k] EXCEPT !.tx = FALSE]] ELSE sts
-        /\ resumeQ' = IF resumed THEN ResumeWrites(S) ELSE <<>>
-        /\ g' = IF expired THEN [g EXCEPT !.ids = {}] ELSE g
+  /\ LET expired == secsAgo # <<>> /\ SessionExpired(Ln.seik, Ln.sei, secsAgo[1]) IN
+        /\ S' = [S EXCEPT !.R = Ln.R, !.M = Ln.M, !.quota = Ln.R, !.loose = TRUE]
+        /\ resumeQ' = IF secsAgo # <<>> THEN <<DecideMarker(expired)>> ELSE <<>>
   /\ ph' = "run" /\ netIn' = <<>> /\ netEnd' = "open" /\ wrm' = "accept" /\ retd' = <<>> /\ secsAgo' = <<>>
   /\ discW' = FALSE
   /\ cfg' = [cfg EXCEPT !.R = Ln.R, !.M = Ln.M, !.sei = Ln.sei, !.recon = 1]
   /\ blockedOn' = <<>>
-  /\ UNCHANGED <<mode, verdict, msgQ, inCtx, nh, supp>>
+  /\ UNCHANGED <<mode, verdict, msgQ, inCtx, nh, supp, ops, sts, g>>
+
+TakeResumeDecide ==      \* silent: run() applies the decision before anything else
+  /\ Stepping /\ Deciding
+  /\ LET expired == Head(resumeQ).t = "ABANDON" IN
+        /\ S' = IF expired THEN [InitS(S.R, S.M) EXCEPT !.rx2 = S.rx2, !.loose = TRUE] ELSE S
+        /\ ops' = IF expired THEN CancelAwaiting(ops, S.await) ELSE ops
+        /\ sts' = IF expired THEN [k \in DOMAIN sts |-> [sts[k] EXCEPT !.tx = FALSE]] ELSE sts
+        /\ resumeQ' = IF expired THEN <<>> ELSE ResumeWrites(S)
+        /\ g' = IF expired THEN [g EXCEPT !.ids = {}] ELSE g
+  /\ UNCHANGED <<l, mode, verdict, cfg, msgQ, netIn, netEnd, wrm, ph, inCtx, retd, nh, discW, supp, secsAgo, blockedOn>>
 
 \* the first response to connect()/authorize()  (C13)
 FirstWant(inj, rc, x) ==
@@ -500,7 +510,7 @@ Info ==
 
 Normal ==
   \/ Call \/ Clone \/ Inject \/ NetEnd \/ WrMode \/ Drop \/ PollOp \/ PollSt
-  \/ CtxBegin \/ TakeResume \/ TakeMsgSilent \/ TakeMsgWrite \/ TakeMsgWriteFails
+  \/ CtxBegin \/ TakeResumeDecide \/ TakeResume \/ TakeMsgSilent \/ TakeMsgWrite \/ TakeMsgWriteFails
   \/ TakePktSilent \/ TakePktWrite \/ TakePktWriteFails \/ TakePktBlocked \/ TakeOwed \/ TakeOwedFails
   \/ TakeNetEnd \/ TakeHandlesGone
   \/ CtxEndPending \/ CtxEndReturn \/ Quiescent \/ MarkDisc \/ Reconnect \/ Info \/ First \/ Fuzz \/ DiscCmp
@@ -541,7 +551,7 @@ RefusedBy(tag, kind) ==
 ClassifyWr(pk) ==
   IF ph # "run" \/ discW THEN V("C13", "write-after-end", pk.t)
   ELSE IF pk.t = "MALFORMED" THEN V("C01", "malformed-packet", pk.x)
-  ELSE IF resumeQ # <<>> THEN V("C17", "resume-mismatch", <<pk.t, pk.id, pk.dup, Head(resumeQ).t, Head(resumeQ).id>>)
+  ELSE IF resumeQ # <<>> /\ ~Deciding THEN V("C17", "resume-mismatch", <<pk.t, pk.id, pk.dup, Head(resumeQ).t, Head(resumeQ).id>>)
   ELSE IF cfg.recon = 1 /\ ((pk.t = "PUBLISH" /\ pk.dup = 1) \/ (pk.t = "PUBREL" /\ (msgQ = <<>> \/ Head(msgQ).pk.t # "PUBREL")))
        THEN V("C17", "unexpected-retransmission", <<pk.t, pk.id>>)
   ELSE IF pk.t \in {"PUBACK", "PUBREC", "PUBCOMP"} THEN
@@ -568,7 +578,7 @@ ClassifyWr(pk) ==
 ExpectedWriteMissing ==
   IF Ln.e = "ctxe" /\ LostWakeupAhead(l + 1) THEN V(<<"C03", "C16">>, "lost-wakeup", <<Len(netIn), Len(msgQ), Ln.unread>>)
   ELSE IF blockedOn # <<>> THEN V("C08", "ack-missing", <<blockedOn[1].wr.t, blockedOn[1].wr.id>>)
-  ELSE IF resumeQ # <<>> THEN V("C17", "resume-missing", <<Head(resumeQ).t, Head(resumeQ).id>>)
+  ELSE IF resumeQ # <<>> /\ ~Deciding THEN V("C17", "resume-missing", <<Head(resumeQ).t, Head(resumeQ).id>>)
   ELSE IF netIn # <<>> /\ HandlePkt(S, Head(netIn)).wr # <<>> /\ (msgQ = <<>> \/ Ln.unread = 0)
        THEN V("C08", "ack-missing", <<Head(netIn).t, Head(netIn).qos, Head(netIn).id, Len(Head(netIn).sids)>>)
   ELSE IF msgQ # <<>> THEN HeadNotWritten
